@@ -77,6 +77,8 @@ ALIASES = [
     (r'\bPredecessors\b', 'std::pair<std::vector<unsigned long>, std::vector<unsigned int>>'),
     (r'\bMultiplePaths\b', 'std::list<std::list<unsigned int>>'),
     (r'\bPath\b', 'std::list<unsigned int>'),
+    (r'(?<![\w:])list<Edge>', 'std::list<std::pair<unsigned int, unsigned int>>'),
+    (r'(?<![\w:])list<LabeledEdge<VLabel>>', 'std::list<std::tuple<unsigned int, unsigned int, VLabel>>'),
     (r'(?<![\w:<])Edge\b(?!s)', 'std::pair<unsigned int, unsigned int>'),
     (r'\bhashEdge\b', 'hashEdge'),
     (r'std::_List_const_iterator<unsigned int>', 'std::list<unsigned int>::iterator'),
@@ -234,6 +236,8 @@ STL = {
     'std::tuple<unsigned int, unsigned int, unsigned int>': ('bg_ledge_uint', 'ledge_uint'),
     'std::tuple<unsigned int, unsigned int, double>': ('bg_ledge_real', 'ledge_real'),
     'std::list<std::pair<unsigned int, unsigned int>>': ('bg_edgeseq', 'edgeseq'),
+    'list<Edge>': ('bg_edgeseq', 'edgeseq'),
+    'list<LabeledEdge<VLabel>>': ('bg_ledgeseq_VLabel', 'ledgeseq_VLabel'),
     'std::list<std::tuple<unsigned int, unsigned int, VLabel>>': ('bg_ledgeseq_VLabel', 'ledgeseq_VLabel'),
     'std::list<std::tuple<unsigned int, unsigned int, unsigned int>>': ('bg_ledgeseq_uint', 'ledgeseq_uint'),
     'std::list<std::pair<unsigned int, unsigned int>>::iterator': ('bg_edgeseq_it', 'edgeseq_it'),
@@ -484,6 +488,10 @@ class Program:
                     for fi in lst:
                         fi['suffix'] = key + '_' + self._sig_tag(fi)
             for fi in fis:
+                if base == 'ctor' and owner and owner.startswith('LDG_') and fi['suffix'] in ('_1', '_1_sz'):
+                    ps = [c for c in inner(fi['node']) if c['kind'] == 'ParmVarDecl']
+                    if len(ps) == 1 and 'size_t' in ps[0]['type']['qualType']:
+                        fi['suffix'] = ''   # the (size_t) constructor keeps the name the contracts are keyed to
                 nm = (owner + '__' if owner else '') + base + fi['suffix']
                 fi['cname'] = nm
                 if nm in self.func_by_cname and self.func_by_cname[nm] is not fi:
